@@ -38,7 +38,7 @@ func init() {
 	set("C05", "run completed >= 3 cross-chain MT transfers with amounts from the boundary set {1,2,7,1000,2^32,2^63-1,2^63,2^64-2,2^64-1}",
 		"which class on the receiving chain is the voucher of an asset is learnt from the first observed receive, never computed from the path")
 	set("C06", "round-trip profile: >= 1 tour completed; refund profile: >= 1 error-acknowledged transfer checked",
-		"hook H2 (token-keeper fault injection) is not built: the 'destination keeper fault' failure point is not exercised; failure points covered are invalid receiver, relay-chain refusal by rule, zero MT amount")
+		"failure points covered on the receiving side: invalid receiver, relay-chain refusal by rule, zero MT amount, and (hook H2, cooperative fault point) the first or second call of IssueDenom / MintNFT / TransferOwner / IssueMT / MintMT / TransferOwner(MT) failing on the destination")
 	set("C09", "run executed >= 5 successful sends and >= 2 failing send txs in multi-tx / multi-msg blocks")
 	set("C10", "run had >= 1 accepted clean and >= 1 relayed MsgRecvCleanPacket",
 		"completeness of cleans is asserted on the source chain only (the statement gives only-if conditions elsewhere)")
@@ -55,7 +55,7 @@ func init() {
 		"irismod nft/mt genesis is outside TIBC: its differences are aligned silently and counted (irismod-genesis-keys-aligned); after the export the workload avoids operations that allocate new MT ids",
 		"app hashes and gas legitimately differ after re-import and are not compared")
 	set("C19", "run produced >= 5 failing transactions whose five-store dump was compared before/after",
-		"hook H2 (token-keeper fault injection) is not built: failures after partial writes inside an application callback are not injected")
+		"failures after partial writes inside an application callback are injected through hook H2 (profile c19-keeper-faults): a cooperative fault point makes the k-th token-keeper call of the transfer module fail; with irismod's real keepers such late failures may be unreachable, so that configuration checks the module against its keeper interface contract")
 	set("C20", "history of >= 60 blocks re-executed in-process (noise + restarts) and in >= 1 fresh OS process",
 		"the race-detector tier is not built")
 	set("C08", "run made >= 20 Verify* probes against client states built by real header updates")
